@@ -815,6 +815,49 @@ fn eval_c13(job: &Job) -> JobResult {
             k += stop_stride;
         }
     }
+    // the same with the branch budget set to the exact need of the program: a resumed run must
+    // not need more branches than the uninterrupted one
+    {
+        let longest = s1.sigs.iter().map(|s| s.split(" | ").next().unwrap_or("").split(' ').count()).max().unwrap_or(1);
+        let mut tight = base.clone();
+        tight.max_branches = longest;
+        let (st, t1) = run_seq(p, &tight);
+        res.loom_iterations += t1.sigs.len() as u64;
+        if st.verdict == Verdict::Ok && t1.sigs == s1.sigs {
+            let stride = (n / 25).max(1);
+            let mut k = 1;
+            while k <= n {
+                let file = format!("{}/tight-{}.json", dir, k);
+                let _ = std::fs::remove_file(&file);
+                let mut cfg = tight.clone();
+                cfg.checkpoint_file = Some(file.clone());
+                cfg.checkpoint_interval = Some(1);
+                cfg.stop_at_iter = Some(k);
+                let (_sa, a) = run_seq(p, &cfg);
+                let mut cfg2 = tight.clone();
+                cfg2.checkpoint_file = Some(file.clone());
+                cfg2.checkpoint_interval = Some(1);
+                let (sb, b) = run_seq(p, &cfg2);
+                res.loom_iterations += (a.sigs.len() + b.sigs.len()) as u64;
+                let expect = &s1.sigs[k - 1..];
+                if sb.verdict != Verdict::Ok || b.sigs[..] != expect[..] {
+                    res.violations.push(viol(
+                        "resume_differs_tight_budget",
+                        format!("max_branches={} k={}", longest, k),
+                        "with max_branches equal to the program's need the resumed run completes like the uninterrupted one".into(),
+                        format!("{} iterations, verdict {}", b.sigs.len(), sb.verdict.short()),
+                        json!({}),
+                    ));
+                    break;
+                }
+                res.traces_validated += b.sigs.len() as u64;
+                let _ = std::fs::remove_file(&file);
+                k += stride;
+            }
+        } else if st.verdict != Verdict::Ok {
+            res.violations.push(viol("tight_budget", format!("max_branches={}", longest), "Ok: the budget equals the longest path".into(), st.verdict.short(), json!({})));
+        }
+    }
     // failing variants: "assert outcome != o" with interval 1 must fail again first thing after loading
     let mut outcomes: Vec<String> = vec![];
     for s in &s1.sigs {
